@@ -72,7 +72,7 @@ def _run(chk):
     from trackpy.predict import predictor, NullPredict
     common.quiet_trackpy()
     chk.coq()
-    n = 120 if chk.tier == 'quick' else 1200
+    n = 120 if chk.tier == 'quick' else 4000
     t_drift, t_plain, metas = [], [], []
     t_null, m_null = [], []
     for k in range(n):
